@@ -56,7 +56,14 @@ fn main() {
     let cli = cli();
     let mut out = Out::new();
     let mut rng = Rng::new(cli.seed);
-    if cli.mode == "replay" { out.finish(); return; }
+    if cli.mode == "replay" {
+        if cli.rest.len() >= 4 && cli.rest[0] == "argon" {
+            let (t, p, m): (u8, u8, u8) = (cli.rest[1].parse().unwrap_or(0), cli.rest[2].parse().unwrap_or(0), cli.rest[3].parse().unwrap_or(0));
+            let ok = StringToKey::Argon2 { salt: [1; 16], t, p, m_enc: m }.derive_key(b"pw", 16).is_ok();
+            println!("{}", if ok { "ACCEPTED" } else { "REFUSED" });
+        }
+        out.finish(); return;
+    }
     let thorough = cli.tier == "thorough";
 
     // ---- 1. sizes declared but not supplied: every position of the first octets of every small fixture packet
@@ -100,6 +107,40 @@ fn main() {
             }
         }
         out.case("", &[], &["declared-summary".into()], &format!("worst peak/bound ratio {:.3} at {}", worst.0, worst.1), Some(worst.0 <= 1.0), "declared-size-summary");
+    }
+    // the same with room behind the field: the first packet of a fixture / a model-generated packet of every
+    // type gets a header that spans its body plus 3000 filler octets, then every position of the first octets of
+    // the body is overwritten: a field that now claims a huge size finds more than a buffer-full of data behind it
+    {
+        let mut sources: Vec<Vec<u8>> = Vec::new();
+        if let Ok(path) = std::env::var("VERIF_PREGEN") { if let Ok(t) = std::fs::read_to_string(&path) { for line in t.lines() { if let Some(o) = line.split('\t').nth(1) { if o.len() > 8 && !o.starts_with("NONE") && !o.starts_with("MODEL") { sources.push(unhx(o)); } } } } }
+        // a v6 key with an algorithm nobody knows: 4-octet count of key material
+        sources.push({ let mut b = vec![6u8, 0, 0, 0, 1, 100, 0, 0, 0, 8]; b.extend([1u8; 8]); let mut p = vec![0xC6, b.len() as u8]; p.extend(b); p });
+        sources.push({ let mut b = vec![6u8, 0, 0, 0, 1, 100, 0, 0, 0, 8]; b.extend([1u8; 8]); b.push(0); b.extend([2u8; 8]); let mut p = vec![0xC5, b.len() as u8]; p.extend(b); p });
+        let mut worst = 0f64;
+        for src in sources {
+            if src.len() < 4 || src[0] & 0xC0 != 0xC0 { continue; }
+            let hl = if src[1] < 192 { 2 } else if src[1] < 224 { 3 } else if src[1] == 255 { 6 } else { continue };
+            let body = &src[hl..];
+            let filler = rng.bytes(3000);
+            for pos in 0..body.len().min(if thorough { 96 } else { 40 }) {
+                for w in [1usize, 2, 4] {
+                    if pos + w > body.len() { continue; }
+                    let mut b2 = body.to_vec(); for k in 0..w { b2[pos + k] = 0xff; }
+                    b2.extend(&filler);
+                    let mut d = vec![src[0], 255]; d.extend((b2.len() as u32).to_be_bytes()); d.extend(&b2);
+                    let (mut r, mut peak, _t, mut dt) = measure(|| parse_all(&d));
+                    let bound = 192 * 1024 + 64 * d.len();
+                    if peak > bound { let again = measure(|| parse_all(&d)); r = again.0; peak = again.1; dt = again.3; }
+                    let ok = r.is_ok() && peak <= bound && dt < 5.0;
+                    worst = worst.max(peak as f64 / bound as f64);
+                    if !ok || (pos % 13 == 0 && w == 4) {
+                        out.case("", &[], &["declared-with-room".into(), hx(&d[..if ok { d.len().min(200) } else { d.len() }]), d.len().to_string(), pos.to_string(), w.to_string()], &format!("peak={peak} bound={bound} secs={:.2}", dt), Some(ok), &format!("declared-with-room-tag{}", src[0] & 0x3f));
+                    }
+                }
+            }
+        }
+        out.case("", &[], &["declared-with-room-summary".into()], &format!("worst peak/bound ratio {:.3}", worst), Some(worst <= 1.0), "declared-with-room-summary");
     }
     // length fields set explicitly: packet header claims up to 2^32-1 with n octets supplied; compare with the model of take_bytes
     for tag in [2u8, 6, 13, 11, 17, 1, 3] {
@@ -200,7 +241,15 @@ fn main() {
             let should_refuse = t > 32 || p > 32 || m > 21;
             if !cheap && !should_refuse { continue; }
             let s2k = StringToKey::Argon2 { salt: [1; 16], t, p, m_enc: m };
-            let (r, peak, _, dt) = measure(|| s2k.derive_key(b"pw", 16).is_ok());
+            // parameter sets that would need more than 2 GiB if let through are probed in a child process with an
+            // address-space limit, so that a broken gate shows as a refused allocation instead of taking the machine
+            let (r, peak, dt): (Result<bool, String>, usize, f64) = if m >= 22 && t <= 32 && p <= 32 {
+                let exe = std::env::current_exe().unwrap();
+                let st = Instant::now();
+                let o = std::process::Command::new("sh").arg("-c").arg(format!("ulimit -v 3500000; exec {} replay argon {} {} {}", exe.display(), t, p, m)).output();
+                let dt = st.elapsed().as_secs_f64();
+                match o { Ok(o) if o.status.success() => (Ok(String::from_utf8_lossy(&o.stdout).contains("ACCEPTED")), 0, dt), Ok(o) => (Err(format!("child died: {}", String::from_utf8_lossy(&o.stderr).lines().last().unwrap_or("").chars().take(80).collect::<String>())), 0, dt), Err(e) => (Err(e.to_string()), 0, dt) }
+            } else { let (r, peak, _, dt) = measure(|| s2k.derive_key(b"pw", 16).is_ok()); (r, peak, dt) };
             let accepted = matches!(r, Ok(true));
             let quick_refusal = accepted || (dt < 1.0 && peak < (1 << 20));
             out.case("argon", &[t.to_string(), p.to_string(), m.to_string()], &["argon2".into(), t.to_string(), p.to_string(), m.to_string()], if accepted { "allow" } else { "refuse" }, Some(r.is_ok() && quick_refusal), if accepted { "argon2-accepted" } else { "argon2-refused" });
